@@ -233,6 +233,18 @@ Example C18_never_declared_premises :
   c18_decl_ok [(L "Uuid", L "number")] (declared [(L "Uuid", L "number")] ex18_decl_all [TOpt (TCustom (L "Holder"))]) = true.
 Proof. exact never_declared_example. Qed.
 
+(* round 7, after seeded/C18-11: the frame clause on declarations as a run-time oracle (the exported names with the
+   table = the exported names without it) is set equality, and the model satisfies it for every project *)
+Theorem C18_decl_frame_oracle_exact : forall a b, c18_decl_frame_ok a b = true <-> (forall x, In x a <-> In x b).
+Proof. exact decl_frame_oracle_exact. Qed.
+Theorem C18_decl_frame_model : forall zod m all sites,
+  c18_decl_frame_ok (declared_ts zod m all sites) (declared_ts zod [] all sites) = true.
+Proof. exact decl_frame_model. Qed.
+Example C18_decl_frame_premises :
+  c18_decl_frame_ok [L "Holder"; L "Profile"] [L "Profile"; L "Holder"] = true /\
+  c18_decl_frame_ok [L "Holder"] [L "Profile"; L "Holder"] = false.
+Proof. vm_compute. split; reflexivity. Qed.
+
 Print Assumptions C18_frame.
 Print Assumptions C18_frame_type.
 Print Assumptions C18_render_subst.
@@ -255,3 +267,5 @@ Print Assumptions C18_declared_reachable.
 Print Assumptions C18_mapped_struct_declared.
 Print Assumptions C18_never_declared_refuted.
 Print Assumptions C18_decl_oracle_exact.
+Print Assumptions C18_decl_frame_oracle_exact.
+Print Assumptions C18_decl_frame_model.
